@@ -41,6 +41,7 @@ def plan(tier, seed):
                          {'name': 'last_match_wins', 'cfg': {'ext': '.pt', 'dirs': 2}},
                          {'name': 'no_break_after_match', 'cfg': {'ext': '.pt', 'dirs': 2}},
                          {'name': 'cache_by_class_only', 'cfg': {'ext': '.pt', 'dirs': 2}}])
+    famB = dict(name='loader_bound_to_a_class', module=H, fn='bound', jobs=[{}], timeout=300, vacuity=1, mutants=[])
     zj = [{'ext': ext, 'dirs': d, 'getitem': g, 'loads': 3 if (d == 2 and not quick) else 2} for ext in ('.pt', None)
           for d in ((2,) if quick else (2, 3)) for g in (False, True)]
     famZ = dict(name='loader_histories', module=H, fn='zpt_loads', jobs=zj, timeout=900, vacuity=1,
@@ -89,5 +90,5 @@ def plan(tier, seed):
                      'every modification gives the file a modification time it did not have before',
                      'the compile step is memoised per body (3 concrete documents); publishing entry points, forgetting '
                      'old ones and content-type detection are the real code'],
-        families=[famS, famH, famT, famR, famZ, famL],
+        families=[famS, famH, famT, famR, famB, famZ, famL],
     )
